@@ -362,6 +362,12 @@ def run_check(pid: str, tier: str, seed: int, jobs: int = 16) -> int:
         env = dict(os.environ)
         env["PYTHONPATH"] = VERIF + os.pathsep + env.get("PYTHONPATH", "")
         r = subprocess.run([PY, "-W", "ignore", "-m", "pyxsim.cli", pid, "--replay", path], env=env, cwd=VERIF, stdout=subprocess.PIPE, stderr=subprocess.PIPE, text=True, timeout=600)
+        if r.returncode != 1 and small is not scn0:
+            # the minimised case does not fail on its own (process-wide state from earlier scenarios may have
+            # kept it failing inside the worker): fall back to the scenario as generated
+            sv, sout = v["violation"], {"decisions": v.get("decisions"), "digest": v.get("digest")}
+            path = write_replay(pid, seed, v["index"], scn0, sv, sout, {"before": len(jdump(scn0)), "after": len(jdump(scn0)), "note": "minimised case did not reproduce in a fresh interpreter"})
+            r = subprocess.run([PY, "-W", "ignore", "-m", "pyxsim.cli", pid, "--replay", path], env=env, cwd=VERIF, stdout=subprocess.PIPE, stderr=subprocess.PIPE, text=True, timeout=600)
         if r.returncode == 1:
             print(f"violation clause={sv['clause']} signature={sv['signature']} detail={jdump(sv.get('detail'))[:800]}")
             print(f"VIOLATION property={pid} replay={path}")
